@@ -47,12 +47,15 @@ impl<S: ShortGroupSignatureScheme> BlindCredentialBundle<S> {
         let mut ordering = vec![String::new(); self.credential.claims.len()];
 
         for label in self.credential.claims.keys() {
-            ordering[self
+            let index = self
                 .issuer
                 .schema
                 .claim_indices
                 .get_index_of(label)
-                .unwrap()] = label.clone();
+                .ok_or(Error::InvalidClaimData("claim not found in schema"))?;
+            *ordering
+                .get_mut(index)
+                .ok_or(Error::InvalidClaimData("claim missing"))? = label.clone();
         }
         let mut claims = Vec::with_capacity(self.issuer.schema.claims.len());
         for label in &ordering {
